@@ -194,6 +194,7 @@ def c01_rf18(run):
     rf_flow.rf36(run)
     rf_flow.rf43(run)
     rf_flow.rf44(run)
+    rf_fold.rf49(run)
 
 
 def c04_rf18(run):
